@@ -119,3 +119,21 @@ PROPS["C13"] = dict(
     engines=[pbt("c13_thrift", quick=dict(cases=1500, size=40, procs=8), thorough=dict(cases=30000, size=100, procs=16))],
     min_evaluations=dict(quick=8000, thorough=200000),
 )
+
+PROPS["C20"] = dict(
+    title="Bloom filters have no false negatives and follow the Parquet algorithm",
+    level="exploration",
+    design_ref="DESIGN.md section 8, C20",
+    level_text=("Generated filter sizes x typed value multisets: no false negatives (also after write/from_data/read reload and after merge), "
+                "fresh filter empty, sizes whole 32-byte blocks, filter bytes identical to an independent split-block Bloom filter written from "
+                "the Parquet specification, specification-built filters answer correctly when loaded into carquet; XXH64 compared with libxxhash "
+                "for every length 0..300 (thorough ..1100) and random inputs up to 4 MiB at every misalignment 0..15. Exploration only."),
+    level_note="trusts libxxhash 0.8.1 as reference XXH64 and ref/sbbf_ref.hpp as a faithful reading of the Parquet BloomFilter specification",
+    technique="property-based testing (rapidcheck) + bounded-exhaustive lengths: model-based comparison with an independent split-block Bloom filter and libxxhash",
+    rule=("sbbf case = (requested size | ndv, value type, inserted multiset, second multiset for merge/interchange, probes); non-trivial: filter with "
+          ">= 2 blocks and >= 2 distinct inserted hashes. xxh64 case = (segment list, seed, misalignment); non-trivial: length >= 32 and not a "
+          "multiple of 32. Distinct = FNV-1a-64 of the serialised case."),
+    assumptions=["values are hashed as their PLAIN encoding (little-endian fixed width / raw bytes) with seed 0"],
+    engines=[pbt("c20_bloom", libs=["rapidcheck", "xxhash"], quick=dict(cases=4000, size=100, enum=1, procs=4), thorough=dict(cases=25000, size=200, enum=2, procs=16))],
+    min_evaluations=dict(quick=8000, thorough=200000),
+)
